@@ -237,9 +237,13 @@ def check(repo: Repo, run: Run) -> None:
         run.inconclusive("C12.N3", "NameContainer.resolve_name", why)
     else:
         run.ob("C12.N3", "NameContainer.resolve_name|tie-break", verdict, f"resolve_name: {why}", ev.loc(rn))
-    loops = [n for n in ast.walk(rn) if isinstance(n, ast.For) and "parent_iter()" in ast.unparse(n.iter)]
-    run.ob("C12.N3", "NameContainer.resolve_name|scope order", bool(loops) and "reversed" not in ast.unparse(loops[0].iter),
-           "candidate scopes are tried in parent_iter() order", ev.loc(rn))
+    loops = [n for n in ast.walk(ev.func_n("NameContainer.resolve_name")) if isinstance(n, ast.For) and "parent_iter()" in ast.unparse(n.iter)]
+    if not loops:
+        run.inconclusive("C12.N3", "NameContainer.resolve_name|scope order", "no loop over parent_iter() was found in resolve_name (or the private helpers it calls)")
+    else:
+        backwards = any("reversed" in ast.unparse(l.iter) or "[::-1]" in ast.unparse(l.iter) for l in loops)
+        run.ob("C12.N3", "NameContainer.resolve_name|scope order", not backwards,
+               "candidate scopes are tried in parent_iter() order" if not backwards else "candidate scopes are tried in reverse parent_iter() order: the outermost scope is met first", ev.loc(rn))
     # N4 -----------------------------------------------------------------
     body = [st for st in init.body]
     order = [i for i, st in enumerate(body) if "load_annotations" in ast.unparse(st)], [i for i, st in enumerate(body) if "load_values" in ast.unparse(st)]
